@@ -7,6 +7,9 @@ import (
 	"encoding/json"
 	"fmt"
 	"os"
+	"runtime"
+	"sync"
+	"sync/atomic"
 	"testing"
 	"time"
 
@@ -31,13 +34,48 @@ var S = vh.New(prop())
 func TestMain(m *testing.M) { vh.Main(m, S) }
 
 type stream struct {
-	r    *runner
-	h    *tcpm.Half // nil for late-traffic streams
-	id   int
-	done int
+	r              *runner
+	h              *tcpm.Half // nil for late-traffic streams
+	conn, dir, inc int
+	id             int
+	done           int
+	called         bool // some callback ran on this stream
+	inCallback     atomic.Bool
+}
+
+func (s *stream) enter(what string) {
+	if !s.inCallback.CompareAndSwap(false, true) {
+		s.r.lock()
+		s.r.failf("overlap", "callbacks of stream %d overlap (%s while another callback of the same stream is running)", s.id, what)
+		s.r.unlock()
+	}
+	if s.r.yield != nil {
+		s.r.yield("callback:" + what)
+	} else if s.r.locked != nil {
+		runtime.Gosched() // widen the window in which an unserialised second callback would be seen
+	}
+}
+
+// first notes the first callback of a stream: of the streams created for one key, only the one the pool keeps may
+// receive callbacks while it is not completed.
+func (s *stream) first() {
+	if s.called {
+		return
+	}
+	s.called = true
+	k := [3]int{s.conn, s.dir, s.inc}
+	if o := s.r.owner[k]; o != nil && o != s && o.done == 0 {
+		s.r.failf("two-entries", "two streams of connection %d direction %d (incarnation %d) both receive callbacks: the pool holds two entries for one key", s.conn, s.dir, s.inc)
+	}
+	s.r.owner[k] = s
 }
 
 func (s *stream) Reassembled(rs []tcpassembly.Reassembly) {
+	s.enter("Reassembled")
+	defer s.inCallback.Store(false)
+	s.r.lock()
+	defer s.r.unlock()
+	s.first()
 	if s.done > 0 {
 		s.r.failf("data-after-completion", "stream %d received data after ReassemblyComplete", s.id)
 	}
@@ -52,6 +90,11 @@ func (s *stream) Reassembled(rs []tcpassembly.Reassembly) {
 }
 
 func (s *stream) ReassemblyComplete() {
+	s.enter("ReassemblyComplete")
+	defer s.inCallback.Store(false)
+	s.r.lock()
+	defer s.r.unlock()
+	s.first()
 	s.done++
 	if s.done > 1 {
 		s.r.failf("completed-twice", "stream %d completed %d times", s.id, s.done)
@@ -68,6 +111,23 @@ type runner struct {
 	fail                    *vh.Failure
 	op                      int
 	batches, lateDeliveries int
+	owner                   map[[3]int]*stream
+	yield                   func(site string)        // set by the controlled-schedule test (C12)
+	locked                  *sync.Mutex              // race-stress mode: serialises the harness' own bookkeeping
+	unordered               func(conn, dir int) bool // C12: directions whose packets are spread over assemblers
+	noModel                 bool                     // race-stress mode with a flusher: deliveries are not judged
+}
+
+func (r *runner) lock() {
+	if r.locked != nil {
+		r.locked.Lock()
+	}
+}
+
+func (r *runner) unlock() {
+	if r.locked != nil {
+		r.locked.Unlock()
+	}
 }
 
 func (r *runner) failf(key, format string, a ...any) {
@@ -84,9 +144,15 @@ func (r *runner) New(netFlow, tcpFlow gopacket.Flow) tcpassembly.Stream {
 		dir, cp = 1, dp
 	}
 	conn, inc := (cp-10000)/64, (cp-10000)%64
-	s := &stream{r: r, id: len(r.streams)}
+	if r.yield != nil {
+		r.yield("factory.New")
+	}
+	r.lock()
+	defer r.unlock()
+	s := &stream{r: r, id: len(r.streams), conn: conn, dir: dir, inc: inc}
 	h := r.m.Half(conn, dir, inc)
-	if !h.Bound() {
+	judged := !r.noModel && (r.unordered == nil || !r.unordered(conn, dir))
+	if !h.Bound() && judged {
 		s.h = h
 		r.m.Bind(h)
 	}
@@ -126,7 +192,7 @@ func run(c *tcpm.Case, lifecycle bool) (f *vh.Failure, m *tcpm.Model, info map[s
 }
 
 func run1(c *tcpm.Case, lifecycle bool) (f *vh.Failure, m *tcpm.Model, info map[string]bool) {
-	r := &runner{c: c, m: tcpm.NewModel(c, "tcpassembly")}
+	r := &runner{c: c, m: tcpm.NewModel(c, "tcpassembly"), owner: map[[3]int]*stream{}}
 	info = map[string]bool{}
 	pv, stack := vh.Recover(func() {
 		pool := tcpassembly.NewStreamPool(r)
@@ -303,6 +369,11 @@ func TestRegress(t *testing.T) {
 			f, _, _ := run(&c, true)
 			return true, f
 		}
+		if regressExtra != nil {
+			return regressExtra(rf)
+		}
 		return false, nil
 	})
 }
+
+var regressExtra func(rf *vh.ReplayFile) (bool, *vh.Failure)
